@@ -11,5 +11,7 @@ assert s.count(old)>=1, "pattern not found"
 s=s.replace(old,new,1)
 open(p,'w').write(s)
 PY
-HWV_REPO=$D /verif/check $1 ${5:+--tier $5}; echo "exit=$?"
+set +e
+HWV_REPO=$D /verif/check $1 ${5:+--tier $5}; rc=$?; echo "exit=$rc"
 rm -rf $D
+exit $rc
